@@ -241,6 +241,27 @@ def opQuote (j : Json) : R Json := do
         | some cmds => Json.arr (cmds.map fun c => Json.arr (c.map encS).toArray).toArray
         | none => Json.null)]).toArray
 
+open Lock in
+/-- {"proto":"fixed"|"legacy","sched":[[pid,"step"|"kill"]...],"pids":[...]} -> per prefix: insiders, and final pcs -/
+def opLock (j : Json) : R Json := do
+  let proto := if (← fStr j "proto") == "legacy" then Proto.legacy else Proto.fixed
+  let sched ← (← fArr j "sched").mapM fun e => do
+    let a ← e.getArr?
+    match a.toList with
+    | [p, act] => pure (← p.getNat?, if (← act.getStr?) == "kill" then Act.kill else Act.step)
+    | _ => throw "bad sched entry"
+  let pids ← (← fArr j "pids").mapM (·.getNat?)
+  let encPC : PC → String := fun pc => match pc with
+    | .start => "start" | .opened => "opened" | .locked => "locked" | .inside => "inside" | .left => "left"
+    | .closed => "closed" | .unlinked => "unlinked" | .done true => "done-ok" | .done false => "done-fail"
+  let mut k := init
+  let mut trace : Array Json := #[]
+  for pa in sched do
+    k := stepProc proto k pa.1 pa.2
+    trace := trace.push (Json.arr ((pids.map fun p => Json.str (encPC (k.procs p).pc)).toArray))
+  return Json.mkObj [("trace", Json.arr trace), ("final", Json.arr ((pids.map fun p => Json.str (encPC (k.procs p).pc)).toArray)),
+    ("name", match k.name with | some i => Json.num i | none => Json.null)]
+
 def dispatch (j : Json) : R Json := do
   let op ← fStr j "op"
   match op with
@@ -253,6 +274,7 @@ def dispatch (j : Json) : R Json := do
   | "config" => opConfig j
   | "netrc" => opNetrc j
   | "clean" => opClean j
+  | "lock" => opLock j
   | "quote" => opQuote j
   | "validate" => opValidate j
   | "metadata_files" => opMetadataFiles j
